@@ -1440,7 +1440,7 @@ def b_network_init(S):
     CALL = "Option (Option (List G × Bool))"
     C = {
         "self_area_gdf.empty or self_area_gdf.geometry.iloc[0].is_empty": "(area_is_empty self_area_gdf)",
-        "self_trace_gdf.copy()": "self_trace_gdf", "self_area_gdf.copy()": "self_area_gdf", "self_branch_gdf.copy()": "self_branch_gdf", "self_node_gdf.copy()": "self_node_gdf",
+        "self_trace_gdf.copy()": "(copy_ self_trace_gdf)", "self_area_gdf.copy()": "self_area_gdf", "self_branch_gdf.copy()": "self_branch_gdf", "self_node_gdf.copy()": "self_node_gdf",
         "check_for_z_coordinates(geodata=self_trace_gdf)": "(has_z self_trace_gdf)",
         "remove_z_coordinates_from_geodata(geodata=self_trace_gdf)": "(drop_z self_trace_gdf)",
         "gpd.GeoDataFrame(crop_to_target_areas(self_trace_gdf, self_area_gdf, keep_column_data=True, allow_multilinestring_input=not self_determine_branches_nodes))":
@@ -1460,8 +1460,8 @@ def b_network_init(S):
         {"self_trace_gdf": "List G", "self_area_gdf": "A", "self_truncate_traces": "Bool", "self_circular_target_area": "Bool", "self_determine_branches_nodes": "Bool",
          "self_remove_z_coordinates_from_inputs": "Bool", "self_branch_gdf": "Unit", "self_node_gdf": "Unit"},
         f"List G × {CALL}", C, types=T, raises=True,
-        extra_params=[("{G}", "Type"), ("{A}", "Type"), ("area_is_empty", "A → Bool"), ("has_z", "List G → Bool"), ("drop_z", "List G → List G"), ("crop_", "List G → A → Bool → List G"),
-                      ("no_topology_given", "Bool")],
+        extra_params=[("{G}", "Type"), ("{A}", "Type"), ("area_is_empty", "A → Bool"), ("copy_", "List G → List G"), ("has_z", "List G → Bool"), ("drop_z", "List G → List G"),
+                      ("crop_", "List G → A → Bool → List G"), ("no_topology_given", "Bool")],
         slice_from="self_topology_determined = False", default_num="Nat", join="tuple")
 
 
@@ -2155,7 +2155,7 @@ ITEMS: List[Item] = [
     Item("SnapInsert", BAN, ["C06"], b_snap_insert),
     Item("InsertPoint", BAN, ["C06", "C04", "C01"], b_insert_point),
     Item("Dedupe", BAN, ["C04", "C01"], b_dedupe),
-    Item("NetworkInit", NETWORK, ["C14"], b_network_init),
+    Item("NetworkInit", NETWORK, ["C14", "C08", "C15"], b_network_init),
     Item("BranchesAndNodes", BAN, ["C01", "C14", "C04", "C03", "C05"], b_branches_and_nodes),
     Item("SimpleSnap", BAN, ["C06", "C01"], b_simple_snap),
     Item("SnapStage", BAN, ["C06", "C01"], b_snap_stage, deps=["SnapInsert"]),
